@@ -145,6 +145,7 @@ TraceNext ==
             [] e.ev = "export_import" ->
                  /\ impTaint' = ""      \* a new chain is started from this export
                  /\ viol' = viol \cup
+                      (IF e.zeroErr # "" THEN {Sig("C19", "zero-height-export-or-import-failed", "-", e)} ELSE {}) \cup
                       (IF ~e.ok THEN {Sig("C19", "export-import-failed", "-", e)}
                        ELSE {Sig("C19", m, e.norm[m][p], e) :
                                <<m, p>> \in {mp \in UNION {{<<m2, p2>> : p2 \in DOMAIN e.before[m2]} : m2 \in DOMAIN e.before} :
